@@ -49,7 +49,7 @@ def oz(x):
 
 
 def observe(coll, source_ids, search_tags, batches, store, extra_paths=(),
-            rng=None):
+            rng=None, registrations=None):
     """Call every accessor of the real collection `coll`; return the Coq case
     term, the canonical answers and the list of violated identities.
 
@@ -88,9 +88,24 @@ def observe(coll, source_ids, search_tags, batches, store, extra_paths=(),
             rs.append(f"mkR {n} {int(r.linenumber)} {int(r.source_id)} "
                       f"{oz(t)} {oz(d)} {oz(s)} {parts}")
         coq_batches.append("[" + "; ".join(rs) + "]")
+    # the tag table the catalog SHOULD hold: every tag resolves to all the
+    # definitions ever registered with it (first-registration order), derived
+    # from the registration history and not from the catalog
+    if registrations is None:
+        registrations = [(t, i) for t, ids in search_tags.items()
+                         for i in ids]
+    expected_tags = {}
+    for t, i in registrations:
+        if t is not None and i not in expected_tags.setdefault(t, []):
+            expected_tags[t].append(i)
+    impl_tags = [[tid(t), [did(i) for i in ids]]
+                 for t, ids in search_tags.items()]
     tagtab = {}
-    for tag, ids in search_tags.items():
+    for tag, ids in expected_tags.items():
         tagtab[tid(tag)] = [did(i) for i in ids]
+    coq_regs = "[" + "; ".join(f"({tid(t)}, {did(i)})"
+                               for t, i in registrations
+                               if t is not None) + "]"
 
     def U(rs):
         # an object that was never passed to add() has no uid: -1
@@ -104,7 +119,8 @@ def observe(coll, source_ids, search_tags, batches, store, extra_paths=(),
     tag_ids = [None if t is None else tid(t) for t in tags]
     defs = [d for d in did.m] + [UNKNOWN_DEF]
     def_ids = [did(d) for d in defs]
-    stags = list(search_tags) + [UNKNOWN_TAG]
+    stags = list(dict.fromkeys(list(expected_tags) + list(search_tags))) \
+        + [UNKNOWN_TAG]
     if rng is not None:
         # the lookups below form ONE history on the same collection object:
         # restricted / unrestricted / unknown paths in a generated order
@@ -184,7 +200,7 @@ def observe(coll, source_ids, search_tags, batches, store, extra_paths=(),
     files = [pid(p) for p in coll.files]
     keys = [pid(p) for p in coll.keys()]
     ln = len(coll)
-    want = [ln, all_, items, files, keys, want_paths]
+    want = [ln, all_, items, files, keys, want_paths, impl_tags]
 
     cat = ("mkCat [" + "; ".join(f"({int(s)}, {pid(p)})"
                                  for s, p in source_ids.items()) + "] ["
@@ -193,10 +209,21 @@ def observe(coll, source_ids, search_tags, batches, store, extra_paths=(),
     case = ("((" + cat + ", [" + "; ".join(coq_batches) + "], "
             + vlib.zl(path_ids) + ", [" + "; ".join(oz(t) for t in tag_ids)
             + "], " + vlib.zl(def_ids) + ", " + vlib.zl(stag_ids) + ", ["
-            + "; ".join(oz(k) for k in skeys) + "]) : case_t)")
+            + "; ".join(oz(k) for k in skeys) + "], " + coq_regs
+            + ") : case_t)")
 
     # ---------------------------------------------------- spec oracle
     bad = list(replay)
+    # every shared tag resolves to ALL definitions registered with it
+    got_tags = {t: ds for t, ds in impl_tags}
+    for t, ds in tagtab.items():
+        if sorted(got_tags.get(t, [])) != sorted(ds):
+            bad.append({'sig': 'tag-table-lost-definition', 'tag': t,
+                        'catalog_resolves_to': got_tags.get(t),
+                        'registered_with_tag': ds,
+                        'registration_history': [
+                            (tid(a), did(b)) for a, b in registrations
+                            if a is not None]})
 
     def fail(sig, **kw):
         bad.append({'sig': sig, **kw})
@@ -498,16 +525,40 @@ def real_run(cfg, workdir):
                 SequenceSearchDef(start=SearchDef(r'start (\S+)'),
                                   body=SearchDef(r'item (\d+)'), tag='T')]
         targets = paths if cfg['nfiles'] > 1 else paths[:1]
-        for sd in simple + seqs:
-            if rng.random() < 0.25 and cfg['nfiles'] > 1:
-                for p in rng.sample(targets, rng.randint(1, len(targets))):
-                    fs.add(sd, p)
-            else:
-                fs.add(sd, os.path.join(d, '*') if cfg['nfiles'] > 1
-                       else paths[0])
+        regs = []
+
+        def add(sd, p):
+            regs.append((sd.tag, sd.id))
+            fs.add(sd, p)
+
+        alldefs = simple + seqs
+        rng.shuffle(alldefs)
+        mode = cfg.get('order', 'mixed')
+        if cfg['nfiles'] == 1:
+            for sd in alldefs:
+                add(sd, paths[0])
+        elif mode == 'search-major':
+            # for each search: for each file: add()
+            for sd in alldefs:
+                for p in rng.sample(targets, rng.randint(2, len(targets))):
+                    add(sd, p)
+        elif mode == 'file-major':
+            for p in targets:
+                for sd in alldefs:
+                    if rng.random() < 0.8:
+                        add(sd, p)
+        else:
+            for sd in alldefs:
+                if rng.random() < 0.3:
+                    for p in rng.sample(targets,
+                                        rng.randint(1, len(targets))):
+                        add(sd, p)
+                else:
+                    add(sd, os.path.join(d, '*'))
         coll = fs.run()
         try:
-            obs = observe_real(fs, coll, recorded, rng)
+            obs = observe_real(fs, coll, recorded, rng, regs)
+            obs['meta']['order'] = mode
         except Exception as exc:                              # noqa
             return {'raised': f"{type(exc).__name__}: {exc}",
                     'trace': traceback.format_exc()[-1500:],
@@ -518,12 +569,12 @@ def real_run(cfg, workdir):
         shutil.rmtree(d, ignore_errors=True)
 
 
-def observe_real(fs, coll, recorded, rng=None):
+def observe_real(fs, coll, recorded, rng=None, regs=None):
     cat = fs.catalog
     obs = observe(coll, dict(cat._source_ids),               # noqa, pylint: disable=protected-access
                   {k: list(v) for k, v in cat._search_tags.items()},  # noqa, pylint: disable=protected-access
                   recorded, coll.results_store, extra_paths=fs.files,
-                  rng=rng)
+                  rng=rng, registrations=regs)
     obs['meta']['kind'] = 'real:' + ('mp' if len(fs.files) > 1 else 'single')
     obs['meta']['files'] = len(fs.files)
     obs['meta']['stats_results'] = fs.stats['results']
@@ -589,7 +640,12 @@ def in_child(fn, out, timeout):
 
 PREAMBLE = r"""
 From SK Require Import Model.Collection.
+From SK Require Model.Catalog.
 Definition uids (l : list result) : jv := JZs (map uid l).
+(* _search_tags after the registration history (Model/Catalog.v) *)
+Definition tag_table (regs : list (Z * Z)) : list (Z * list Z) :=
+  fold_left (fun t r => SK.Model.Catalog.register_tag t (Some (fst r)) (snd r))
+            regs [].
 Definition enc_secs (skeys : list (option Z)) (s : sections) : jv :=
   JL [JZ (lenZ s);
       JL (map (fun k => match dget oz_eqb s k with
@@ -598,9 +654,9 @@ Definition enc_lookup (skeys : list (option Z)) (l : lookup sections) : jv :=
   match l with KeyError => JZ (-1) | Ok s => enc_secs skeys s end.
 Definition case_t : Type :=
   (catalog * list (list result) * list Z * list (option Z) * list Z * list Z *
-   list (option Z))%type.
+   list (option Z) * list (Z * Z))%type.
 Definition run_case (x : case_t) : jv :=
-  let '(cat, bs, paths, tags, defs, stags, skeys) := x in
+  let '(cat, bs, paths, tags, defs, stags, skeys, regs) := x in
   let c := build cat bs in
   JL [JZ (len c); uids (all c);
       JL (map (fun e => JL [JZ (fst e); uids (snd e)]) (items c));
@@ -613,7 +669,8 @@ Definition run_case (x : case_t) : jv :=
                                     (find_sequence_sections c d p)) defs);
                 JL (map (fun t => enc_lookup skeys
                                     (find_sequence_by_tag cat c t p)) stags)])
-          paths)].
+          paths);
+      JL (map (fun e => JL [JZ (fst e); JZs (snd e)]) (tag_table regs))].
 """
 
 
@@ -657,7 +714,8 @@ def run(chk):
     for i in range(nreal):
         nfiles = 1 if i % 5 == 0 else rng.randint(2, 6)
         cfg = {'seed': rng.randrange(1 << 30), 'nfiles': nfiles,
-               'par': rng.choice([2, 3, 8]), 'force_empty': i % 3 == 1}
+               'par': rng.choice([2, 3, 8]), 'force_empty': i % 3 == 1,
+               'order': ['search-major', 'file-major', 'mixed'][i % 3]}
         res, err = in_child(lambda cfg=cfg: real_run(cfg, chk.work),
                             os.path.join(chk.work, 'real_run.json'), 40)
         if err:
@@ -701,6 +759,7 @@ def run(chk):
             chk.dist('>=5-paths')
         chk.dist('results-total', m['results'])
         if m['kind'].startswith('real'):
+            chk.dist('registration-order:' + m.get('order', '?'))
             chk.sample({k: m[k] for k in ('kind', 'files', 'results', 'paths',
                                           'tags', 'defs', 'sections',
                                           'batches')})
